@@ -9,7 +9,7 @@ from ..probes import Clock, Models, Losses, make_names
 from ..harness import storage_proxy
 
 SHARDS = {"quick": 1, "thorough": 8}
-REPS = {"quick": 1, "thorough": 6}
+REPS = {"quick": 3, "thorough": 12}
 
 
 def build(cls_name, model, loss, names, overrides, clock, rnd):
